@@ -226,10 +226,10 @@ func Compact(toks []string) string {
 			pl, tf := p[len(p)-1], t[0]
 			switch {
 			case isWord(p) && isWord(t), // names, keywords, numerals
-				pl == '-' && tf == '-',                 // comment
-				isWord(p) && tf == '.',                 // 1 .. 2 / a ..  (numeral followed by dot)
+				pl == '-' && tf == '-', // comment
+				isWord(p) && tf == '.', // 1 .. 2 / a ..  (numeral followed by dot)
 				pl == '.' && (tf == '.' || isWord(t) && tf >= '0' && tf <= '9'), // .. .5
-				pl == '[' && (tf == '[' || tf == '='),  // long bracket
+				pl == '[' && (tf == '[' || tf == '='),                           // long bracket
 				pl == '<' && (tf == '<' || tf == '='), pl == '>' && (tf == '>' || tf == '='),
 				(pl == '=' || pl == '~') && tf == '=', pl == '/' && tf == '/', pl == ':' && tf == ':':
 				b = append(b, ' ')
